@@ -50,15 +50,16 @@ func newRedisBackend() (*kvBackend, error) {
 
 // kvRun is the state of one behaviour being replayed.
 type kvRun struct {
-	be      *kvBackend
-	redis   bool
-	tick    time.Duration
-	start   time.Time
-	now     int               // model time (even)
-	bound   map[int]string    // model version -> real version string
-	seen    map[string]bool   // every real version string observed so far
-	expOf   map[int]time.Time // model version -> expiration instant written
-	stalled bool
+	be        *kvBackend
+	redis     bool
+	tick      time.Duration
+	start     time.Time
+	now       int               // model time (even)
+	bound     map[int]string    // model version -> real version string
+	seen      map[string]bool   // every real version string observed so far
+	expOf     map[int]time.Time // model version -> expiration instant written
+	stalled   bool
+	wrotePast bool // a record with an expiration in the past was just written
 }
 
 func keyOf(v any) string {
@@ -98,6 +99,20 @@ func (r *kvRun) expTime(class string) *time.Time {
 		d = 1
 	case "s3":
 		d = 3
+	case "f23":
+		d = 23
+	case "f27":
+		d = 27
+	case "past": // already expired when written
+		t := time.Now().Add(-time.Second)
+		if !r.redis {
+			t = r.start.Add(time.Duration(r.now-1) * r.tick)
+		}
+		r.wrotePast = true
+		return &t
+	case "far": // "never": far beyond what fits a 64-bit nanosecond count
+		t := time.Date(9999, 12, 31, 23, 59, 59, 0, time.UTC)
+		return &t
 	default: // long
 		t := time.Now().Add(time.Hour)
 		return &t
@@ -348,6 +363,11 @@ func (r *kvRun) step(i int, s Step) *Failure {
 			time.Sleep(time.Until(r.start.Add(time.Duration(r.now) * r.tick)))
 		}
 	}
+	if r.redis && r.wrotePast {
+		// the Redis client gives an already expired record a TTL of 1 ms; miniredis time only moves when told to
+		r.be.mr.FastForward(3 * time.Millisecond)
+	}
+	r.wrotePast = false
 	if !r.redis {
 		// every call at model time `now` must have run inside the real window around it:
 		// expirations sit at odd ticks, calls at even ones.
@@ -386,6 +406,11 @@ func replayKv(b Behaviour, opt *Options) *Failure {
 	}
 	if isRedis {
 		tick = time.Second
+		if t, ok := opt.Extra["redis_tick_ms"]; ok {
+			var ms int
+			fmt.Sscan(t, &ms)
+			tick = time.Duration(ms) * time.Millisecond
+		}
 	}
 	_ = hasTime
 	for attempt := 0; ; attempt++ {
